@@ -190,7 +190,7 @@ def run_c16(version, tier, seed, escalate, T):
                         violations.append({"signature": {"clause": "creates", "kind": kind, "helper": h["name"], "error": k},
                                            "what": f"v{version}: {new_attr}.{h['name']}({args}) raised {type(e).__name__}: {str(e)[:120]} although type {ty} exists in this version",
                                            "replay": replay})
-                    if not has and k != "unsupported":
+                    if not has and k != "unsupported" and not (k == "valueError" and guard_hit):      # a helper's own argument guard comes first
                         violations.append({"signature": {"clause": "lacks", "kind": kind, "helper": h["name"], "error": k},
                                            "what": f"v{version}: type {ty} is not in this version but {h['name']}() raised {type(e).__name__} instead of UnsupportedAttributeError",
                                            "replay": replay})
